@@ -103,6 +103,13 @@ def gram_passes(pid, tier):
     if pid == 'C05':
         P.append(('error-rule frames NT2 T2 R<=3 with shift/reduce conflicts, all precedence/associativity assignments (the error symbol is a term of precedence 0: it counts as a rule\'s last term)', base + ['--nt', '2', '--t', '2', '--err', '1', '--maxR', '3', '--maxlen', '4', '--prec-levels', '2', '--rprec-max', '1']))
         P.append(('error-rule frames NT1 T2 R<=2 W<=5 (rules ending in term error [N]), all precedence/associativity assignments', base + ['--nt', '1', '--t', '2', '--err', '1', '--maxlen', '4', '--prec-levels', '2', '--rprec-max', '1']))
+    MED = 'medium-size frames (7-11 rules over 2-6 nonterminals and 2-4 terminals, empty rules, right sides up to 3): a fixed corpus of %d grammars per frame, evenly spread with a deterministic jitter over the frame\'s whole enumeration order; '
+    if pid in ('C01', 'C02', 'C09', 'C11', 'C12', 'C16', 'C06'):
+        P.append((MED % (20000 if q else 400000) + '6 frames, strings<=3', base + ['--err', '0', '--stride-count', '20000' if q else '400000', '--maxlen', '3'], 'big'))
+    if pid in ('C08', 'C16', 'C11', 'C12'):
+        P.append((MED % (20000 if q else 400000) + '2 frames with an error symbol, strings<=3', base + ['--err', '1', '--stride-count', '20000' if q else '400000', '--maxlen', '3'], 'big'))
+    if pid == 'C05':
+        P.append((MED % (100 if q else 3000) + 'operator frame NT2 T4 R7 under all precedence/associativity assignments of the conflicting terms, strings<=3', base + ['--err', '0', '--nt', '2', '--t', '4', '--stride-count', '100' if q else '3000', '--maxlen', '3', '--prec-levels', '2', '--rprec-max', '1'], 'big'))
     if pid in ('C01', 'C02', 'C05', 'C08', 'C09', 'C11', 'C16'):
         P.append(('realistic seed grammars (JSON, layered expression grammar with calls, 5-operator grammar with declared precedence, statements with error recovery), all one-symbol variants, strings<=3 over 8-11 terminals + every sentence of the seed up to %d tokens and its one-token deletions' % (7 if q else 8), base + ['--maxlen', '3', '--sentences', '7' if q else '8', '--neighbours', '--max-per-frame', '0', '--seeds', os.path.join(VERIF, 'seeds', 'gram_big_seeds.txt')], 'big'))
     if pid == 'C05' and not q:   # the largest space last: it takes whatever time is left and reports exhaustive=false when cut
